@@ -5,7 +5,7 @@ package main
 
 import "fmt"
 
-var allPopKinds = []string{"tampered", "unsigned", "foreign", "other-step-key", "forged-keyid", "extra-sigs", "dup-infix", "keyid-variant", "keyid-variant", "wrong-name-len", "garbage", "bad-sig-encoding", "corrupt-sig", "cert", "cert"}
+var allPopKinds = []string{"tampered", "unsigned", "foreign", "other-step-key", "earlier-step-key", "earlier-step-key", "forged-keyid", "extra-sigs", "dup-infix", "keyid-variant", "keyid-variant", "wrong-name-len", "garbage", "bad-sig-encoding", "corrupt-sig", "cert", "cert"}
 
 var alterKinds = []string{"mutate-field", "mutate-field", "mutate-field", "drop-sig", "reorder-sigs", "dup-sig", "corrupt-sig", "swap-keyids", "foreign-verifier", "empty-keyset", "wrong-key", "verifier-subset", "signed-by-others-only"}
 
@@ -72,9 +72,9 @@ func init() {
 				cfg.LinkDSSE = false
 				cfg.Repeat = true
 			}
-			cfg.NSteps = 1 + rng.Intn(2)
+			cfg.NSteps = 1 + rng.Intn(3)
 			return cfg
-		}, "per step: threshold 0-3, 1-3 authorized keys, `threshold` honest links (one too few in a quarter of the steps) plus 0-3 extra files drawn from: tampered, unsigned, foreign key, key of another step, forged key id, extra signatures, duplicate under another infix, an already counted functionary again under a letter-case variant of its key id, wrong name length, garbage, undecodable signature, corrupted signature, certificate-signed (good / expired / foreign-root / missing-intermediate chains, forged first key id); both wrappers; compared: verdict and summary. Class = (population kinds, verdict).")
+		}, "per step: threshold 0-3, 1-3 authorized keys, `threshold` honest links (one too few in a quarter of the steps) plus 0-3 extra files drawn from: tampered, unsigned, foreign key, key of another step, key of an EARLIER step of the same layout (listed and defined there), forged key id, extra signatures, duplicate under another infix, an already counted functionary again under a letter-case variant of its key id, wrong name length, garbage, undecodable signature, corrupted signature, certificate-signed (good / expired / foreign-root / missing-intermediate chains, forged first key id); both wrappers; compared: verdict and summary. Class = (population kinds, verdict).")
 	}
 	props["C05"] = func(r *Runner, tier string, rng *Rng) {
 		runChains(r, rng, tierN(tier, 250, 6000), func(i int) *ChainCfg {
@@ -82,11 +82,15 @@ func init() {
 			cfg.Thresholds = []int{1, 2, 2, 3}
 			cfg.Differ = rng.Chance(60)
 			cfg.EmptyLastPct = 20
+			if rng.Chance(40) {
+				cfg.Inspections = []string{"noop"}
+				cfg.InspNameClashPct = 60
+			}
 			cfg.RuleStyle = rng.Pick3(1, 1, 0)
 			cfg.PopKinds = []string{"foreign", "unsigned", "tampered", "forged-keyid"}
 			cfg.ExtraPerStep = rng.Intn(2)
 			return cfg
-		}, "1-3 steps with thresholds 1-3; counted links agree or one of them differs in one product path / digest / presence / hash algorithm set; the last step of a multi-step layout reports no products in a fifth of the cases; uncounted links (foreign, unsigned, tampered, forged id) carry other artifacts; rules strict (MATCH + DISALLOW *), lenient or random; compared: verdict and the summary's name, materials and products. Class = (differ?, kinds, verdict).")
+		}, "1-3 steps with thresholds 1-3; counted links agree or one of them differs in one product path / digest / presence / hash algorithm set; the last step of a multi-step layout reports no products in a fifth of the cases; 40% carry an inspection, often named like the first or last step; uncounted links (foreign, unsigned, tampered, forged id) carry other artifacts; rules strict (MATCH + DISALLOW *), lenient or random; compared: verdict and the summary's name, materials and products. Class = (differ?, kinds, verdict).")
 	}
 	props["C08"] = func(r *Runner, tier string, rng *Rng) {
 		runChains(r, rng, tierN(tier, 220, 5000), func(i int) *ChainCfg {
@@ -98,13 +102,15 @@ func init() {
 			cfg.SurplusPct = 40
 			cfg.ShortPct = 20
 			cfg.SubExpiredPct = 15
+			cfg.EmptyLastPct = 30
+			cfg.EmptyLastSub = true
 			if rng.Chance(40) {
 				cfg.PopKinds = []string{"tampered", "foreign", "forged-keyid", "garbage", "corrupt-sig"}
 				cfg.ExtraPerStep = 1
 			}
 			cfg.Differ = rng.Chance(15)
 			return cfg
-		}, "two- and three-level nestings: the evidence of one functionary per step may be a sublayout with its own link directory; defects (tampered/foreign/forged/garbage/corrupt links, one link too few, disagreeing links, rule violations) land at any level (incl. an expired or undated sublayout under a valid root), also in a sublayout of a step that has more honest evidence than its threshold requires; parent rules strict or lenient; compared: verdict and summary. Class = (depth features, verdict).")
+		}, "two- and three-level nestings: the evidence of one functionary per step may be a sublayout with its own link directory; defects (tampered/foreign/forged/garbage/corrupt links, one link too few, disagreeing links, rule violations) land at any level (incl. an expired or undated sublayout under a valid root, a sublayout whose last step reports no products), also in a sublayout of a step that has more honest evidence than its threshold requires; parent rules strict or lenient; compared: verdict and summary. Class = (depth features, verdict).")
 	}
 	props["C09"] = func(r *Runner, tier string, rng *Rng) {
 		kinds := []string{"noop", "create", "modify", "delete", "exit", "create-exit", "signal", "missing", "empty", "noop", "create", "noop"}
@@ -117,6 +123,9 @@ func init() {
 			}
 			cfg.DirEdit = rng.Pick([]string{"", "", "add", "remove", "modify"})
 			cfg.AltAlgPct = 25
+			cfg.RequirePct = 30
+			cfg.StepRuleBreakPct = 12
+			cfg.InspNameClashPct = 10
 			if cfg.Entry == "withdir" {
 				cfg.RunDirState = rng.Pick([]string{"ok", "ok", "ok", "ok", "ok", "missing", "empty"})
 			}
@@ -126,7 +135,7 @@ func init() {
 				cfg.Thresholds = []int{1, 2}
 			}
 			return cfg
-		}, "0-3 inspections from a catalogue of real shell commands (no-op, create/modify/delete a file, exit 1..255, effect then exit, killed by signal, missing executable, empty argv), final product directory equal to the last step's products or with one file added / removed / modified, the last step's products recorded under sha512 only in 25% of the cases (nothing comparable = nothing equal), with and without an explicit run directory (incl. missing / empty); inspection rules match the directory against the last step's products; compared: verdict, summary, the list of commands that actually ran (marker file), the files present afterwards. Class = (inspection kinds, directory edit, run-dir state, verdict).")
+		}, "0-3 inspections from a catalogue of real shell commands (no-op, create/modify/delete a file, exit 1..255, effect then exit, killed by signal, missing executable, empty argv), final product directory equal to the last step's products or with one file added / removed / modified, the last step's products recorded under sha512 only in 25% of the cases (nothing comparable = nothing equal), with and without an explicit run directory (incl. missing / empty); inspection rules match the directory against the last step's products, 30% carry a REQUIRE (first, or after ALLOW *); 12% of the chains have a step whose product rules fail (no inspection may run then), 10% an inspection named like a step; compared: verdict, summary, the list of commands that actually ran (marker file), the files present afterwards. Class = (inspection kinds, directory edit, run-dir state, verdict).")
 	}
 }
 
